@@ -244,7 +244,9 @@ claim('C13',
       'entry; a reloaded calculator (cache populated or empty) gives term-identical Lij for the same and for a further symbolic input '
       '(uninterpreted abstraction as in C14), equal tags; Taylor coefficients and evaluations identical; star sets, vector star sets and '
       'the Green-function calculator compared attribute by attribute, and so are the reloaded VacancyMediated and GFCrystalcalc '
-      'objects (every attribute both have: nested lists, arrays, star sets).',
+      'objects (every attribute both have: nested lists, arrays, star sets). Input-buffer history: after a call the caller edits the '
+      'array it passed in place (symbolic amount), saves and reloads; the reloaded calculator must answer the original and the edited '
+      'input correctly (one defect found and fixed: cache keys aliased the caller\'s arrays).',
       'HDF5 modelled by a stub (replays use real h5py, core driver); YAML half of the property NOT covered; calculators enumerated; '
       'vacancy/solute site energies fixed to zero in the Lij round trip.',
       'DESIGN.md 3/C13, 2.3')
